@@ -636,9 +636,9 @@ func runC14(cfg Config) {
 	}
 	// (f) the casync protocol as a whole session: real client, real server, scripted store (protosession.go)
 	runProtoSessions(cfg, rep, m, rng, cfg.N(250, 6000), cfg.N(250, 6000))
+	runSshPool(cfg, rep, m, rng)
 	c14CLI(cfg, rep, rng)
 	c14IndexUpstreams(cfg, rep, rng)
-	runSshPool(cfg, rep, m, rng)
 	rep.Write(cfg.Out)
 }
 
